@@ -41,6 +41,7 @@ type m3 struct {
 	synthN    int
 	curRet    []mtype
 	closures  map[types.Object]*ast.FuncLit
+	classBusy map[types.Object]bool
 }
 
 type loop3 struct {
@@ -1174,12 +1175,32 @@ func (c *m3) inlineClosure(e *ast.CallExpr, fl *ast.FuncLit) ([]string, []mtype)
 	if len(ps) != len(e.Args) {
 		c.fail(e, "call of a function literal with %d arguments", len(e.Args))
 	}
+	// every inlined call binds its arguments to FRESH names (several calls may occur in one statement: their
+	// bindings are all emitted in front of it) and the body is translated with the parameters renamed to them
+	var temps []string
 	for i, p := range ps {
 		o := c.p.info.Defs[p]
-		c.pend = append(c.pend, fmt.Sprintf("let %s := %s in", c.vn(o), c.convTo(e.Args[i], o.Type())))
+		v := c.convTo(e.Args[i], o.Type())
+		t := c.fresh()
+		c.pend = append(c.pend, fmt.Sprintf("let %s := %s in", t, v))
+		temps = append(temps, t)
+	}
+	saved := map[types.Object]string{}
+	for i, p := range ps {
+		o := c.p.info.Defs[p]
+		saved[o] = c.names[o]
+		c.names[o] = temps[i]
 	}
 	ret := fl.Body.List[0].(*ast.ReturnStmt)
-	return []string{c.ex(ret.Results[0])}, []mtype{c.tyOf(ret.Results[0])}
+	body := c.ex(ret.Results[0])
+	for _, p := range ps {
+		o := c.p.info.Defs[p]
+		c.names[o] = saved[o]
+	}
+	// the result gets a name of its own as well
+	t := c.fresh()
+	c.pend = append(c.pend, fmt.Sprintf("let %s := %s in", t, body))
+	return []string{t}, []mtype{c.tyOf(ret.Results[0])}
 }
 
 func repoDir(path string) (string, bool) {
@@ -1283,6 +1304,12 @@ func (c *m3) builtin(e *ast.CallExpr, name string) string {
 	case "make":
 		t := c.tyOf(e)
 		if t.k == mMap {
+			if len(e.Args) == 2 {
+				// the size hint is evaluated (it may panic); a negative hint is allowed for maps
+				if h := c.ex(e.Args[1]); strings.HasSuffix(h, "_") && len(c.pend) > 0 {
+					_ = h
+				}
+			}
 			return fmt.Sprintf("(Some (@nil (%s * %s)))", c.coqT(*t.key), c.coqT(*t.elem))
 		}
 		if t.k != mList || len(e.Args) < 2 || len(e.Args) > 3 {
